@@ -32,6 +32,7 @@ import (
 	"net/http"
 	"sort"
 	"strings"
+	"sync"
 	"testing"
 	"time"
 
@@ -466,6 +467,60 @@ func actualRule(fx *livesrv.Fixture) (ruleView, bool) {
 
 const msgRuleInconsistent = "default rules do not consistent"
 
+// opFault numbers ALL storage writes of one update in the order they happen — the writes to the server's
+// configuration storage (s.storage, swapped per case) and the writes the update's own goroutine issues to
+// the cluster-level storage (replication-mode manager: SaveReplicationStatus; placement rule manager:
+// SaveRule ...) — and fails the n-th.
+type opFault struct {
+	mu      sync.Mutex
+	n, seen int
+	on      string // which storage the failed write went to
+}
+
+func (o *opFault) arm(n int) {
+	o.mu.Lock()
+	o.n, o.seen, o.on = n, 0, ""
+	o.mu.Unlock()
+}
+
+func (o *opFault) write(where string) error {
+	o.mu.Lock()
+	defer o.mu.Unlock()
+	o.seen++
+	if o.n > 0 && o.seen == o.n {
+		o.on = where
+		return faultkv.ErrInjected
+	}
+	return nil
+}
+
+func (o *opFault) hit() (bool, string) {
+	o.mu.Lock()
+	defer o.mu.Unlock()
+	return o.n > 0 && o.seen >= o.n, o.on
+}
+
+// managerDisagrees compares the replication-mode manager with the served replication-mode section
+// (only for the two canonical spellings, which the manager itself understands).
+func managerDisagrees(fx *livesrv.Fixture) string {
+	rc := fx.Svr.GetRaftCluster()
+	if rc == nil {
+		return ""
+	}
+	cfg := fx.Svr.GetReplicationModeConfig()
+	if cfg.ReplicationMode != "majority" && cfg.ReplicationMode != "dr-auto-sync" {
+		return ""
+	}
+	st := rc.GetReplicationMode().GetReplicationStatusHTTP()
+	if st.Mode != cfg.ReplicationMode {
+		return fmt.Sprintf("the replication-mode manager runs mode %q, the served section says %q", st.Mode, cfg.ReplicationMode)
+	}
+	if cfg.ReplicationMode == "dr-auto-sync" && st.DrAutoSync.LabelKey != cfg.DRAutoSync.LabelKey {
+		return fmt.Sprintf("the replication-mode manager uses label key %q, the served section says %q", st.DrAutoSync.LabelKey, cfg.DRAutoSync.LabelKey)
+	}
+	return ""
+}
+
 type prepared struct {
 	call      func() error
 	verdict   string
@@ -660,6 +715,15 @@ func runOnce(c Case) (vkit.Info, error) {
 		}
 		livesrv.Fatal("C18: cannot reset the configuration to the base: " + err.Error())
 	}
+	of := &opFault{}
+	w.SetGate(func(kind, key string) error {
+		if kind == "save" || kind == "remove" {
+			return of.write("config")
+		}
+		return nil
+	})
+	fx.ClusterGate(func(kind, key string) error { return of.write("cluster") })
+	defer fx.ClusterGate(nil)
 	classes := map[string]bool{}
 	accepted, rejected, failed := 0, 0, 0
 	// model of the default rule: ResetConfig set it to the base replication section; afterwards it follows
@@ -689,23 +753,35 @@ func runOnce(c Case) (vkit.Info, error) {
 				info.Exclude(findingReplModeHTTP)
 				classes["known-class-not-faulted"] = true
 			} else {
-				for n := 1; n <= 8; n++ {
-					w.FailNth(n)
+				for n := 1; n <= 16; n++ {
+					of.arm(n)
 					err := p.call()
-					hit := w.Writes() >= n
-					w.ResetCounters()
+					hit, on := of.hit()
+					of.arm(0)
 					if !hit {
 						// fewer than n writes: this execution ran without any fault
 						cleanErr, cleanDone = err, true
 						break
 					}
 					failed++
-					classes["failed-persist:"+op.Kind] = true
+					if on == "cluster" {
+						classes["failed-cluster-write:"+op.Kind] = true
+					} else {
+						classes["failed-persist:"+op.Kind] = true
+					}
 					if err == nil {
-						return info, vkit.Errf("%s: write %d of the update failed but the update reported success", where, n)
+						return info, vkit.Errf("%s: write %d of the update (to the %s storage) failed but the update reported success; served afterwards: %s", where, n, on, served(fx)[p.section])
 					}
 					if d := diffSnap(before, served(fx)); d != "" {
 						return info, vkit.Errf("%s: write %d of the update failed (error returned: %v) but the served configuration changed: %s", where, n, err, d)
+					}
+					if got, rerr := reloaded(w); rerr != nil {
+						return info, vkit.Errf("%s: write %d of the update failed; %v", where, n, rerr)
+					} else if d := diffSnap(normalise(fx), got); d != "" {
+						return info, vkit.Errf("%s: write %d of the update (to the %s storage) failed (error returned: %v); the served configuration is unchanged but a fresh Reload now differs from it (served, normalised => reloaded): %s", where, n, on, err, d)
+					}
+					if d := managerDisagrees(fx); d != "" {
+						return info, vkit.Errf("%s: write %d of the update failed (error returned: %v) and %s", where, n, err, d)
 					}
 					if op.Kind == "replication" && ruleOK {
 						if ra, ok := actualRule(fx); ok && ra != ruleBefore {
@@ -721,7 +797,7 @@ func runOnce(c Case) (vkit.Info, error) {
 			}
 		}
 		if !cleanDone {
-			w.ResetCounters()
+			of.arm(0)
 			cleanErr = p.call()
 		}
 		after := served(fx)
@@ -757,6 +833,14 @@ func runOnce(c Case) (vkit.Info, error) {
 			}
 			if d := diffSnap(before, after); d != "" {
 				return info, vkit.Errf("%s was rejected (%v) but the served configuration changed: %s", where, cleanErr, d)
+			}
+			if got, rerr := reloaded(w); rerr != nil {
+				return info, vkit.Errf("%s was rejected; %v", where, rerr)
+			} else if d := diffSnap(normalise(fx), got); d != "" {
+				return info, vkit.Errf("%s was rejected (%v); a fresh Reload differs from the unchanged served configuration (served, normalised => reloaded): %s", where, cleanErr, d)
+			}
+			if d := managerDisagrees(fx); d != "" {
+				return info, vkit.Errf("%s was rejected (%v) and %s", where, cleanErr, d)
 			}
 			if !fx.Healthy() {
 				livesrv.Fatal("C18: server lost leadership / cluster stopped during a case")
@@ -799,6 +883,9 @@ func runOnce(c Case) (vkit.Info, error) {
 		want := normalise(fx)
 		if d := diffSnap(want, got); d != "" {
 			return info, vkit.Errf("%s accepted but a fresh Reload differs from the served configuration (served, normalised => reloaded): %s", where, d)
+		}
+		if d := managerDisagrees(fx); d != "" {
+			return info, vkit.Errf("%s accepted but %s", where, d)
 		}
 		for i := range want {
 			if want[i] != after[i] {
